@@ -3,6 +3,8 @@ package checks
 import (
 	"fmt"
 	"io"
+	"os"
+	"path/filepath"
 	"strings"
 	"testing/iotest"
 	"time"
@@ -78,7 +80,7 @@ func c03Code(canon, tight, out string) c03Prog {
 	return c03Prog{[]c03Piece{{canon, tight, true}}, out}
 }
 
-var c03Chunks = []string{"a", "é", "\n", "{", "}", "%", "#", "}}", "%}", "#}", "-", " ", "{ x", "€€"}
+var c03Chunks = []string{"a", "é", "\n", "{", "}", "%", "#", "}}", "%}", "#}", "-", " ", "{ x", "€€", "\ufeff", "\x00", "\xff\xfe", "\r\n"}
 
 // leaves: text chunks, a print, comments, verbatim sections
 func c03Leaves(inMacro bool) []c03Prog {
@@ -206,10 +208,36 @@ const c03ReaderBehaviours = 5
 
 func c03Run(c core.Case) core.Result {
 	env := c03Env()
-	if len(c.N) > 0 && c.N[0] > 0 {
+	name := c.Src
+	if len(c.N) > 0 && c.N[0] > 0 && c.N[0] < 100 {
 		env.Loader = &c03ReaderLoader{c.N[0]}
 	}
-	out, err, pan := tryExec(env, c.Src, map[string]stick.Value{"v": "V", "x": "X"})
+	if len(c.N) > 0 && c.N[0] > 100 {
+		switch c.N[0] {
+		case 101, 102: // a regular file / a symbolic link to it
+			dir := filepath.Join(core.WorkDir, "c03fs")
+			if core.WorkDir == "" {
+				dir, _ = os.MkdirTemp("", "c03fs")
+			}
+			os.MkdirAll(dir, 0o755)
+			if err := os.WriteFile(filepath.Join(dir, "real.twig"), []byte(c.Src), 0o644); err != nil {
+				return core.Skipped("cannot-write-file")
+			}
+			name = "real.twig"
+			if c.N[0] == 102 {
+				os.Remove(filepath.Join(dir, "link.twig"))
+				if err := os.Symlink("real.twig", filepath.Join(dir, "link.twig")); err != nil {
+					return core.Skipped("cannot-symlink")
+				}
+				name = "link.twig"
+			}
+			env.Loader = stick.NewFilesystemLoader(dir)
+		case 103:
+			env.Loader = &stick.MemoryLoader{Templates: map[string]string{"m": c.Src}}
+			name = "m"
+		}
+	}
+	out, err, pan := tryExec(env, name, map[string]stick.Value{"v": "V", "x": "X"})
 	nt := strings.Contains(c.Src, "{%") || strings.Contains(c.Src, "{#") || strings.Contains(c.Src, "{{")
 	if pan != "" {
 		return core.Violation("panic", "executing "+q(c.Src)+" panicked: "+pan)
@@ -280,6 +308,62 @@ func c03Levels(tier string) []core.Level {
 					}
 				}
 			}
+		}},
+		{Name: "lengths: a literal run of every length 1..600 and 2^k-3..2^k+3 (k <= 17), of 1-byte / 2-byte characters / lone braces, at the start, after a print, after a comment and after a lone brace, followed by a print / comment / if tag / verbatim section / nothing (block-wise scanning has length-dependent behaviour)", Gen: func(emit func(core.Case)) {
+			var lens []int
+			for n := 1; n <= 600; n++ {
+				lens = append(lens, n)
+			}
+			for k := 10; k <= 17; k++ {
+				for d := -3; d <= 3; d++ {
+					lens = append(lens, 1<<uint(k)+d)
+				}
+			}
+			for _, k := range []int{3, 5, 6, 7} { // multiples of 4096 and 1000
+				for d := -2; d <= 1; d++ {
+					lens = append(lens, 4096*k+d, 1000*k+d)
+				}
+			}
+			heads := []c08SO{{"", ""}, {"{{ v }}", "V"}, {"{# c #}", ""}, {"{", "{"}, {"x{% if v %}y{% endif %}", "xy"}}
+			tails := []c08SO{{"{{ v }}", "V"}, {"{# c #}", ""}, {"{% if v %}y{% endif %}", "y"}, {"{% verbatim %}{{ r }}{% endverbatim %}", "{{ r }}"}, {"", ""}, {"{{ v }}z", "Vz"}}
+			for _, n := range lens {
+				fills := []string{strings.Repeat("a", n)}
+				if n <= 600 || n%4096 < 3 || n%4096 > 4093 {
+					fills = append(fills, strings.Repeat("é", n/2)+strings.Repeat("b", n%2), strings.Repeat("{ ", n/2)+strings.Repeat("c", n%2))
+				}
+				for _, f := range fills {
+					for hi, h := range heads {
+						if strings.HasSuffix(h.src, "{") && strings.HasPrefix(f, "{") {
+							continue // would spell an opening delimiter
+						}
+						for ti, t := range tails {
+							if n > 600 && hi > 1 && ti > 1 {
+								continue
+							}
+							emit(core.Case{Fam: "len", Src: h.src + f + t.src, Exp: h.out + f + t.out})
+						}
+					}
+				}
+			}
+		}},
+		{Name: "loaders: every sequence of <= 2 chunks and every leaf loaded from a regular file and through a symbolic link (FilesystemLoader), and from a memory loader", Gen: func(emit func(core.Case)) {
+			with := func(c core.Case) {
+				for b := 101; b <= 103; b++ {
+					c2 := c
+					c2.N = []int{b}
+					emit(c2)
+				}
+			}
+			for _, a := range c03Chunks {
+				c03Emit(with, c03Text(a), "text")
+				for _, b := range c03Chunks {
+					c03Emit(with, c03Concat(c03Text(a), c03Text(b)), "text")
+				}
+			}
+			for _, a := range leaves {
+				c03Emit(with, a, "seq")
+			}
+			with(core.Case{Fam: "text", Src: strings.Repeat("long text ", 500), Exp: strings.Repeat("long text ", 500)})
 		}},
 		{Name: "reader behaviours: every sequence of <= 3 chunks and every leaf pair, delivered by a reader that returns one byte at a time / its last data together with io.EOF / half of what is asked / both / (0, nil) on every other call", Gen: func(emit func(core.Case)) {
 			with := func(c core.Case) {
